@@ -60,12 +60,12 @@ int32_t matrixSslValidatePeerCerts(ssl_t *ssl,
 {
     matrixValidateCertsOptions_t *opts;
     psX509Cert_t *foundIssuer;
-    int32_t rc;
+    int32_t rc, validateRc;
 
     opts = &ssl->validateCertsOpts;
 
     /* Perform MatrixSSL internal validation. */
-    rc = matrixValidateCertsExt(ssl->hsPool,
+    validateRc = rc = matrixValidateCertsExt(ssl->hsPool,
             ssl->sec.cert,
             ssl->keys == NULL ? NULL : ssl->keys->CAcerts,
             ssl->expectedName,
@@ -82,6 +82,14 @@ int32_t matrixSslValidatePeerCerts(ssl_t *ssl,
     psCheckSetPathLenFailure(ssl, ssl->sec.cert);
     rc = psCheckValidationResult(ssl,
             ssl->sec.cert);
+    if (validateRc < 0 && rc >= 0)
+    {
+        /* The validator failed without leaving a verdict in any authStatus
+           (bad options, unparseable date, ...): that is a failure of the
+           chain, as in the TLS <= 1.2 path, and never a success */
+        ssl->err = SSL_ALERT_BAD_CERTIFICATE;
+        rc = MATRIXSSL_ERROR;
+    }
     if (rc < 0)
     {
         if (ssl->sec.validateCert == NULL)
